@@ -49,6 +49,8 @@ var c19Corpus = []string{
 	`x = {hv2({1: 1, 2: 2, 3: 3}): 1, hv2({1: 1, 2: 2, 3: 4}): 2}; return len(x);`,
 	`function f(h) { return len(h); } x = {f({"a": 1, "b": 2, "c": 3}): hv2("p"), f({"a": 1, "b": 2, "d": 4}): hv2("q"), f({"z": 1}): hv2("r")}; return string(x);`,
 	`x = [{"b": hv2(1), "a": hv2(2)}, {"d": {"y": hv2(3), "x": hv2(4)}, "c": hv2(5)}]; return string(x);`,
+	`return {"b": 1, "a": 2, "c": [{"z": 1, "y": 2}, {"x": {"q": 1, "p": 2}}], "1": "s", 1: "i"};`,
+	`x = {"k2": M, "k1": [M, {"n": 2, "m": 1}]}; hv(x); return x;`,
 	`return [replace(S, "[", "-"), replace(S, "(", "x"), match(S, "["), S ~= /l+/];`,
 	`function a() { return 2 - 10; } function b() { return 300 * 300; } function c() { return 1 - 70000; } function d() { return 65534 + 5; } function e() { return 0 - 1; } return a() + b() + c() + d() + e() + (3 - 9);`,
 	`hv($A, A, $S, S, $Name, Name); return string($A) + string(Name);`,
